@@ -10,6 +10,93 @@ from pysym.sym import S, B, Leaf, Node
 
 LT, EQ, GT = 1, 2, 4
 
+# ---- canonical keys: equality of DAG nodes modulo associativity/commutativity of + and *, a - b = a + (-b),
+# -(a + b) = (-a) + (-b), and signs pulled out of products and quotients.  Every rule is an identity of real arithmetic
+# (also of Coq's total division: (-a)/b = -(a/b), a/(-b) = -(a/b)); nothing else (no distributivity, no constant folding).
+_KEY = {}
+_IDS = {}
+
+
+def _intern(k):
+    """structural key -> small int (so that keys of big DAGs stay small and hashable)"""
+    i = _IDS.get(k)
+    if i is None:
+        i = len(_IDS) + 1
+        _IDS[k] = i
+    return i
+
+
+def _sgn_key(e):
+    """(sign, id) with e == sign * term(id)"""
+    r = _KEY.get(e.uid)
+    if r is not None:
+        return r
+    op, a = e.op, e.args
+    if op == 'const':
+        v = a[0]
+        r = (1, _intern(('c', v))) if v >= 0 else (-1, _intern(('c', -v)))
+    elif op == 'var':
+        r = (1, _intern(('v', a[0])))
+    elif op == 'pi':
+        r = (1, _intern(('pi',)))
+    elif op == 'neg':
+        s, k = _sgn_key(a[0])
+        r = (-s, k)
+    elif op in ('add', 'sub'):
+        terms = []
+        _flat_add(e, 1, terms)
+        terms.sort(key=lambda t: (t[1], t[0]))
+        # pull a global sign so that -(a+b) and (-a)+(-b) meet: make the first term positive
+        g = terms[0][0]
+        r = (g, _intern(('add', tuple((s * g, k) for s, k in terms))))
+    elif op == 'mul':
+        sign, fs = 1, []
+        _flat_mul(e, fs)
+        ks = []
+        for f in fs:
+            s, k = _sgn_key(f)
+            sign *= s
+            ks.append(k)
+        ks.sort()
+        r = (sign, _intern(('mul', tuple(ks))))
+    elif op == 'div':
+        s1, k1 = _sgn_key(a[0])
+        s2, k2 = _sgn_key(a[1])
+        r = (s1 * s2, _intern(('div', k1, k2)))
+    elif op == 'pow':
+        s, k = _sgn_key(a[0])
+        n = a[1]
+        r = ((s if n % 2 else 1), _intern(('pow', k, n)))
+    elif op == 'fn':
+        r = (1, _intern(('fn', a[0]) + tuple(_sgn_key(x) for x in a[1:])))
+    else:
+        r = (1, _intern(('node', e.uid)))
+    _KEY[e.uid] = r
+    return r
+
+
+def _flat_add(e, sign, out):
+    if e.op == 'add':
+        _flat_add(e.args[0], sign, out); _flat_add(e.args[1], sign, out)
+    elif e.op == 'sub':
+        _flat_add(e.args[0], sign, out); _flat_add(e.args[1], -sign, out)
+    elif e.op == 'neg':
+        _flat_add(e.args[0], -sign, out)
+    else:
+        s, k = _sgn_key(e)
+        out.append((sign * s, k))
+
+
+def _flat_mul(e, out):
+    if e.op == 'mul':
+        _flat_mul(e.args[0], out); _flat_mul(e.args[1], out)
+    else:
+        out.append(e)
+
+
+def key(e):
+    return _sgn_key(e)
+
 
 def _nonneg(e):
     return e.op == 'fn' and e.args[0] in ('sqrt', 'abs') or (e.op == 'const' and e.args[0] >= 0)
@@ -31,12 +118,19 @@ class Known:
         self.rel = dict(other.rel) if other else {}
 
     def _key(self, a, b):
-        return (a.uid, b.uid) if a.uid <= b.uid else (b.uid, a.uid)
+        ka, kb = key(a), key(b)
+        return (ka, kb) if ka <= kb else (kb, ka)
 
-    def get(self, a, b):
+    def get(self, a, b, novalue=False):
+        if not novalue:
+            va, vb = self.value(a), self.value(b)
+            if va is not None and vb is not None:
+                return LT if va < vb else EQ if va == vb else GT
         k = self._key(a, b)
         r = self.rel.get(k, LT | EQ | GT)
-        r = r if k == (a.uid, b.uid) else _swap(r)
+        r = r if k == (key(a), key(b)) else _swap(r)
+        if key(a) == key(b):
+            r &= EQ
         # built-in facts
         if a.op == 'const' and a.args[0] == 0 and _nonneg(b):
             r &= LT | EQ
@@ -47,11 +141,69 @@ class Known:
             r &= LT if x < y else EQ if x == y else GT
         return r
 
+    # ---- exact values: constants, and sqrt(sum_i (x_i/n)^2) = 1 when n = sqrt(sum_i x_i^2) and 0 < n is known on this path
+    def value(self, e, depth=0):
+        from fractions import Fraction
+        if e.op == 'const':
+            return e.args[0]
+        if depth > 6:
+            return None
+        if e.op == 'sub':
+            x, y = self.value(e.args[0], depth + 1), self.value(e.args[1], depth + 1)
+            return None if x is None or y is None else x - y
+        if e.op == 'fn' and e.args[0] == 'abs':
+            x = self.value(e.args[1], depth + 1)
+            return None if x is None else abs(x)
+        if e.op == 'fn' and e.args[0] == 'sqrt' and self._unit_sqrt(e, depth):
+            return Fraction(1)
+        return None
+
+    def _unit_sqrt(self, e, depth):
+        terms = []
+        _addends(e.args[1], terms)
+        if not terms:
+            return False
+        n, xs = None, []
+        for t in terms:
+            if t.op == 'mul' and t.args[0] is t.args[1]:
+                q = t.args[0]
+            elif t.op == 'pow' and t.args[1] == 2:
+                q = t.args[0]
+            else:
+                return False
+            if q.op != 'div':
+                return False
+            if n is None:
+                n = q.args[1]
+            elif q.args[1] is not n:
+                return False
+            xs.append(key(q.args[0]))
+        if n.op != 'fn' or n.args[0] != 'sqrt':
+            return False
+        sq = []
+        _addends(n.args[1], sq)
+        ys = []
+        for t in sq:
+            if t.op == 'mul' and key(t.args[0]) == key(t.args[1]):
+                ys.append((1, key(t.args[0])[1]))
+            elif t.op == 'pow' and t.args[1] == 2:
+                ys.append((1, key(t.args[0])[1]))
+            else:
+                return False
+        if sorted((1, k[1]) for k in xs) != sorted(ys):
+            return False
+        # 0 < n on this path?
+        vn = self.value(n, depth + 1)
+        if vn is not None:
+            return vn > 0
+        from pysym.sym import S
+        return self.get(S.const(0), n, novalue=True) == LT
+
     def add(self, atom, val):
         a, b = atom.args
         r = self.get(a, b) & _rel_of(atom, val)
         k = self._key(a, b)
-        self.rel[k] = r if k == (a.uid, b.uid) else _swap(r)
+        self.rel[k] = r if k == (key(a), key(b)) else _swap(r)
         return r != 0            # False: infeasible
 
     def decide(self, atom):
@@ -63,6 +215,16 @@ class Known:
         if r & t == 0:
             return False
         return None
+
+
+def _addends(e, out):
+    """flatten a sum of non-negated terms; anything else makes the pattern fail (empty list)"""
+    if e.op == 'add':
+        _addends(e.args[0], out); _addends(e.args[1], out)
+    elif e.op in ('sub', 'neg'):
+        out.clear(); out.append(e)          # not a plain sum of squares
+    else:
+        out.append(e)
 
 
 def _leaves(tree, known):
@@ -80,7 +242,7 @@ def _same_leaf(ls, lb):
         return False
     if ls.kind == 'raise':
         return ls.payload == lb.payload
-    return len(ls.flat) == len(lb.flat) and all(x is y for x, y in zip(ls.flat, lb.flat)) and ls.shape == lb.shape
+    return len(ls.flat) == len(lb.flat) and all(x is y or key(x) == key(y) for x, y in zip(ls.flat, lb.flat)) and ls.shape == lb.shape
 
 
 def compare(ts, tb, mode='equal'):
@@ -89,8 +251,8 @@ def compare(ts, tb, mode='equal'):
     identical = _identical(ts, tb)
     n, bad = 0, []
     for ks, ls in _leaves(ts, Known()):
-        if mode == 'accepts' and ls.kind == 'raise':
-            continue
+        if mode == 'accepts' and (ls.kind == 'raise' or not ls.flat):
+            continue            # the scalar side rejects (exception, or None): nothing is claimed
         for kb, lb in _leaves(tb, ks):
             n += 1
             if not _same_leaf(ls, lb):
@@ -102,4 +264,5 @@ def compare(ts, tb, mode='equal'):
 def _identical(a, b):
     if isinstance(a, Leaf) or isinstance(b, Leaf):
         return isinstance(a, Leaf) and isinstance(b, Leaf) and _same_leaf(a, b)
-    return a.cond is b.cond and _identical(a.t, b.t) and _identical(a.f, b.f)
+    return (a.cond is b.cond or (a.cond.op == b.cond.op and key(a.cond.args[0]) == key(b.cond.args[0]) and key(a.cond.args[1]) == key(b.cond.args[1]))) \
+        and _identical(a.t, b.t) and _identical(a.f, b.f)
